@@ -550,7 +550,8 @@ macro_rules! c05_two {
 }
 c05_two!(c05_two_samples_f4_a5_b9, 4, 5, 7, 9, 8, 34);
 c05_two!(c05_two_samples_f4_a9_b5, 4, 9, 8, 5, 7, 34);
-c05_two!(c05_two_samples_f5_a11_b6, 5, 11, 3, 6, 4, 34);
+// (A: n=11 / N=3 at f=5 with B in assembly exceeded the 8 GB cap: replaced by A: n=9)
+c05_two!(c05_two_samples_f5_a9_b6, 5, 9, 3, 6, 4, 34);
 c05_two!(c05_two_samples_f5_a6_b11, 5, 6, 4, 11, 3, 34);
 
 // ------------------------------------------------------------------------------------
